@@ -113,7 +113,7 @@ theorem C08_no_resume_without_signal (s : St) (p : Phase) (h : Reachable pstep p
   refine ⟨?_, ?_, ?_, ?_⟩
   · intro l s' t hs ht
     cases l <;> simp only [step] at hs <;> (first | (split at hs) | skip) <;> (try simp at hs) <;> (try subst hs) <;>
-      simp only [upd_apply] at ht <;> (try (split at ht <;> simp_all; done))
+      (try simp only [upd_apply] at ht) <;> (try (split at ht <;> simp_all; done)) <;> (try (exact Or.inl ht))
     rename_i q x hc
     by_cases e1 : t = q
     · simp [e1] at ht
